@@ -28,6 +28,9 @@ claimed = {
  "C13": dict(cat="model_checking",
    text="Every well-formed program of L=3 (quick) / 4 (thorough) statement operations - Allocate, Pipeline (both updateTaskIfExistsOnNode values where the actions can pass them), Evict, Unevict, Checkpoint, Rollback(any earlier checkpoint), end - over 2 tasks / 1 node (quick) or 3 tasks / 2 nodes (thorough), from every initial session state (each task Pending, Running or Releasing, placed by the real NodeInfo.AddTask) with symbolic node capacity and task requests, is run through the real framework.Statement on a session with the real proportion allocate/deallocate handlers. After Discard, and after every Rollback, the solver decides term-by-term equality of a canonical dump (node idle/used/releasing in structured and vector form, shared-GPU maps, pods on node, task status/node/groups/virtual flag, job allocated + status index + counters + pod-set counters, queue allocated and non-preemptible at both levels) with the dump taken at that point, and that the cache saw no call; after Commit, each pod is bound, nominated or evicted at most once and exactly the pods whose final virtual status is Allocated / Pipelined / Releasing. Exhaustive over programs within the bound; quantities symbolic.",
    ref="DESIGN.md section 5 C13"),
+ "C20": dict(cat="model_checking",
+   text="Status controllers, decided over real resource.Quantity arithmetic with symbolic values: (a) pod group controller: metadata.GetPodMetadata (non GPU-sharing path), PodGroupMetadata.AddPodMetadata/SumResources, patcher.getStatusWithMetadata and ShouldUpdatePodGroupStatus on 1..2 (quick) / 1..3 (thorough) pods with any phase, any PodScheduled condition, symbolic cpu quantities, symbolic current preemptibility and an ARBITRARY previously stored status: requested/allocated equal the sums by phase recomputed by the harness, allocatedNonPreemptible equals allocated iff the group is currently non-preemptible and is empty otherwise (covers preemptibility flips), and a second reconcile writes nothing; (b) queue controller: the real ResourceUpdater.UpdateQueue over an in-memory store with indexed lists: two child queues with 3 pod groups (symbolic allocated / non-preemptible / requested) under a parent, arbitrary stale stored statuses, children reconciled in either order then the parent: every level equals the sums, and the reconcile is idempotent. The operator's deployment fixpoint and fractional/DRA extraction are outside (reflection-driven diffing; ConfigMap and claim lookups).",
+   ref="DESIGN.md section 5 C20"),
  "C16": dict(cat="model_checking",
    text="Order kernels, decided for all int32 priorities and all creation times: (K1) the session's real job order (Session.JobOrderFn with the real priority and elastic order functions in default-configuration order and the creation-time/UID tail) on three same-shape pending jobs is irreflexive, asymmetric, total and transitive, puts higher priority first and the older job first at equal priority; (K2) the scheduler's real PriorityQueue (container/heap) driven by that order pops three such jobs - pushed in any permutation, optionally after a pop/re-push - never lower priority before higher nor younger before older among equals. The allocate action around the queue (queue order across leaf queues, JobsOrderByQueues re-ordering) is not executed: whether a placed lower-priority job can coexist with an unplaced higher one at action level is outside this check.",
    ref="DESIGN.md section 5 C16"),
